@@ -263,11 +263,93 @@ fn check_cand(c: &CandCase, ctx: &mut Ctx) {
     }
 }
 
+
+// ------------------------------------------------------------------------------------------------
+// the node's answer to GetClosestPeers (ant-node, through the VerifNode pass-through)
+// ------------------------------------------------------------------------------------------------
+
+#[derive(Clone, Debug, Serialize, Deserialize)]
+pub struct ClosestCase {
+    pub peers: Vec<u16>,
+    pub target: Addr,
+    pub count: Option<u8>,
+    pub range: RangeSel,
+}
+
+fn closest_strategy() -> BoxedStrategy<ClosestCase> {
+    (
+        proptest::collection::vec(0u16..60, 0..40),
+        addr_strategy(),
+        proptest::option::weighted(0.7, 0u8..45),
+        prop_oneof![3 => Just(RangeSel::None), 3 => any::<u16>().prop_map(RangeSel::AtPeer), 2 => any::<u16>().prop_map(RangeSel::Frac), 1 => Just(RangeSel::Zero), 1 => Just(RangeSel::Max)],
+    )
+        .prop_map(|(peers, target, count, range)| ClosestCase { peers, target, count, range })
+        .boxed()
+}
+
+fn check_closest(c: &ClosestCase, ctx: &mut Ctx) {
+    use ant_node::verif_hooks::VerifNode;
+    let mut seen = std::collections::BTreeSet::new();
+    let ids: Vec<u16> = c.peers.iter().copied().filter(|p| seen.insert(*p)).collect();
+    let peers: Vec<(PeerId, Vec<libp2p::Multiaddr>)> = ids
+        .iter()
+        .map(|i| (fix::peer(*i as u64), vec![format!("/ip4/10.0.0.1/udp/{}/quic-v1", 1000 + *i).parse().unwrap()]))
+        .collect();
+    let target = build(&c.target);
+    let tb = target.as_bytes();
+    let mut sorted: Vec<(U256, PeerId)> = peers.iter().map(|(p, _)| (ref_distance(&tb, &p.to_bytes()), *p)).collect();
+    sorted.sort_by(|a, b| a.0.cmp(&b.0));
+    let range = match &c.range {
+        RangeSel::None => None,
+        RangeSel::AtPeer(i) if !sorted.is_empty() => Some(sorted[pick_idx(*i, sorted.len())].0),
+        RangeSel::AtPeer(_) => Some(U256::ZERO),
+        RangeSel::Frac(f) => Some((U256::MAX >> 16) * U256::from(*f)),
+        RangeSel::Zero => Some(U256::ZERO),
+        RangeSel::Max => Some(U256::MAX),
+    };
+    let got = VerifNode::calculate_get_closest_peers(peers.clone(), target.clone(), c.count.map(|n| n as usize), range.map(|r| r.to_be_bytes()));
+    let got_ids: Vec<PeerId> = got.iter().filter_map(|(a, _)| a.as_peer_id()).collect();
+    if got_ids.len() != got.len() {
+        ctx.fail("closest_peers_returns_non_peer_address", String::new());
+    }
+    for (a, addrs) in &got {
+        let p = a.as_peer_id();
+        if !peers.iter().any(|(q, m)| Some(*q) == p && m == addrs) {
+            ctx.fail("closest_peers_returns_wrong_multiaddrs", format!("{a:?}"));
+        }
+    }
+    ctx.label_if(range.is_some(), "range_form");
+    ctx.label_if(range.is_none() && c.count.is_some(), "count_form");
+    ctx.label_if(matches!(c.range, RangeSel::AtPeer(_)), "bound_equals_an_element");
+    ctx.nontrivial_if(peers.len() >= 2 && (range.is_some() || c.count.is_some()));
+    match (range, c.count) {
+        (Some(r), _) => {
+            // every peer within the range, none outside (order not specified for this form)
+            let want: std::collections::BTreeSet<PeerId> = sorted.iter().filter(|x| x.0 <= r).map(|x| x.1).collect();
+            let have: std::collections::BTreeSet<PeerId> = got_ids.iter().copied().collect();
+            if want != have || have.len() != got_ids.len() {
+                ctx.fail("peers_in_range_differ_from_reference", format!("{} peers, range {r}: got {} reference {}", peers.len(), got_ids.len(), want.len()));
+            }
+        }
+        (None, Some(n)) => {
+            let want: Vec<PeerId> = sorted.iter().take(n as usize).map(|x| x.1).collect();
+            if got_ids != want {
+                ctx.fail("n_closest_peers_differ_from_reference", format!("{} peers, n={n}: got {} reference {}", peers.len(), got_ids.len(), want.len()));
+            }
+        }
+        (None, None) => {
+            if !got.is_empty() {
+                ctx.fail("closest_peers_without_bound_not_empty", format!("{}", got.len()));
+            }
+        }
+    }
+}
+
 pub fn run(cfg: RunCfg) {
     let mut rep = Report::new(cfg, "exploration");
     rep.rule = "C11: addresses of every kind (peer, chunk, register, scratchpad, transaction, raw keys of 0-64 bytes, constructed near-collisions of the hash prefix); reference = SHA-256/XOR/big-endian in the harness.".into();
     rep.assumptions = vec![
-        "the store's in-range count and the fetcher's range filter are cross-checked against the same reference metric inside C10 and C08; the node's calculate_get_closest_peers inside the C11 part of vh-node".into(),
+        "the store's in-range count and the fetcher's range filter are cross-checked against the same reference metric inside C10 and C08".into(),
         "exact distance ties between different peers (hash collisions) are not generated".into(),
     ];
     vh_core::section!(
@@ -284,6 +366,11 @@ pub fn run(cfg: RunCfg) {
         rep, "candidates", (1_500, 100_000), 16,
         "real node driver with a generated routing table and responsible range; non-trivial: >= 5 peers inserted and a range set",
         cand_strategy, check_cand
+    );
+    vh_core::section!(
+        rep, "node_closest_peers", (40_000, 2_000_000), 16,
+        "ant-node's GetClosestPeers answer (range form and count form) vs the reference filter / sort; non-trivial: >= 2 peers and a bound given",
+        closest_strategy, check_closest
     );
     rep.finish();
 }
